@@ -341,3 +341,69 @@ func c08Redirect(c *core.Ctx, r *core.Report, a *locks.Analysis) {
 		r.OK("ORDER", shortFn(fn)+":redirect-decided-first", c.Pos(lookups[0].Pos()), "every return after the lock acquisition is preceded by the test of the planned block numbers")
 	}
 }
+
+// (11) PAIR — a datapoint that is put into a block's series (MetricsBlock.InsertTimeSeries with the new series,
+// TimeSeries.AddSingleEntry) is also counted in the block's time range: in every function of the metrics writer
+// that stores a datapoint, each such call is followed by MBlockSummary.UpdateTimeRange on every path that goes on
+// successfully (to a success return or, inside a loop, to the next iteration).  The block summary's range is what
+// a time-bounded query prunes blocks with, and what the WAL replay flushes; a datapoint outside it is never found.
+func c08DatapointCounted(c *core.Ctx, r *core.Report) {
+	insert := c.Obj(pkgMetrics, "MetricsBlock.InsertTimeSeries")
+	addOne := c.Obj(pkgMetrics, "TimeSeries.AddSingleEntry")
+	update := c.Obj("pkg/segment/structs", "MBlockSummary.UpdateTimeRange")
+	n := 0
+	for _, fn := range c.RepoFunctions() {
+		if core.FnPkgPath(fn) != core.ModPath+"/"+pkgMetrics || fn.Blocks == nil {
+			continue
+		}
+		var stores []*ssa.Call
+		for _, ci := range core.CallsIn(fn) {
+			if call, ok := ci.(*ssa.Call); ok && (core.IsCallTo(call, insert) || core.IsCallTo(call, addOne)) {
+				stores = append(stores, call)
+			}
+		}
+		if len(stores) == 0 || fn.Object() == insert || fn.Object() == addOne {
+			continue
+		}
+		loops := core.Loops(fn)
+		for i, st := range stores {
+			n++
+			errv, _ := errResultOf(st)
+			lp := core.InnermostLoop(loops, st.Block())
+			var leak ssa.Instruction
+			core.WalkForwardEdges(fn, st, func(in ssa.Instruction) bool {
+				if x, ok := in.(ssa.CallInstruction); ok && core.IsCallTo(x, update) {
+					return false
+				}
+				if ret, ok := in.(*ssa.Return); ok && core.ReturnSuccess(ret) != core.No && leak == nil {
+					if errv == nil || core.NilnessAt(errv, ret.Block()) != core.No {
+						leak = ret
+					}
+				}
+				return true
+			}, func(from, to *ssa.BasicBlock) bool {
+				if errv != nil && core.NilnessAt(errv, to) == core.No {
+					return false // the store failed: nothing to count
+				}
+				if lp != nil && to == lp.Header {
+					if leak == nil {
+						leak = from.Instrs[len(from.Instrs)-1]
+					}
+					return false
+				}
+				return true
+			})
+			construct := fmt.Sprintf("%s:datapoint-store#%d-is-counted-in-the-block's-time-range", shortFn(fn), i+1)
+			if leak != nil {
+				at := leak.Pos()
+				if !at.IsValid() {
+					at = st.Pos()
+				}
+				r.Violation("PAIR", construct, c.Pos(at), "after this datapoint was put into a series of the block the function can go on (return success / take the next record) without MBlockSummary.UpdateTimeRange: the block summary's time range does not cover the datapoint, so time-bounded queries prune the block, and a WAL replay whose datapoints all take this path flushes nothing and then deletes the WAL")
+			} else {
+				r.OK("PAIR", construct, c.Pos(st.Pos()), "followed by UpdateTimeRange on every path that goes on successfully")
+			}
+		}
+	}
+	r.Floor("PAIR", "datapoint stores in the metrics writer", n, 4)
+}
